@@ -1657,15 +1657,65 @@ def run(tier: str, seed: int, replay: str | None = None) -> int:
             elif len(samples) < 3 and len(g["scopes"]) >= 3 and nontrivial:
                 samples.append({"files": g["files"], "order": obs["order"],
                                 "tables": {n: {KIND_TABLES[k][0]: t[k]["all"] for k in range(4)} for n, t in obs_clean["tables"].items()}})
+    # ---- stream `ext` (round 6): USE association through the export tables of an external project
+    from . import c06_ext
+    me = importlib.import_module(__name__)
+    n_ext = 150 if tier == "quick" else 1500
+    ext_graphs = []
+    if replay:
+        data = json.loads(Path(replay).read_text())
+        ext_graphs = [c["graph"] for c in data.get("cases", []) + data.get("first_disagreements", [])
+                      if c.get("stream") == "ext" and "graph" in c]
+    rng_ext = random.Random(seed * 7919 + 606)
+    for i in range(0 if replay else n_ext):
+        g = c06_ext.gen_pair(me, rng_ext, i, hist, fixed)
+        c06_ext.render_files(me, rng_ext, g)
+        ext_graphs.append(g)
+    n_ext_runs = n_ext_fail = n_ext_corr = 0
+    ext_distinct = set()
+    with common.scratch_dir() as d:
+        ext_obs = [c06_ext.run_pair(me, impl, d, g, seed * 31 + gi) for gi, g in enumerate(ext_graphs)]
+    ext_model = drv.batch([c06_ext.model_request(me, g, o, fixed) if "error" not in o else ["c06.parse", ""]
+                           for g, o in zip(ext_graphs, ext_obs)])
+    for g, o, mo in zip(ext_graphs, ext_obs, ext_model):
+        n_ext_runs += 2
+        if "error" in o:
+            n_ext_fail += 1
+            rep.failing_input({"stream": "ext", "graph": g, "why": "implementation raised " + o["error"]}, None)
+            continue
+        mt = parse_model(mo)
+        w = "model error" if "error" in mt else diff_tables(strip_impl(mt), strip_impl(o["tables"]))
+        if w:
+            n_ext_corr += 1
+            rep.tie_broken(f"correspondence ext: model (twoStep) and implementation differ on pair {g['id']}: {w}",
+                           {"stream": "ext", "graph": g, "why": w, "order": o["order"]})
+        why = c06_ext.oracle(me, g, o)
+        if why:
+            n_ext_fail += 1
+            rep.failing_input({"stream": "ext", "graph": g, "why": why, "order": o["order"],
+                               "observed": strip_impl(o["tables"])}, None)
+        names_a = {s["name"] for s in g["scopes"] if s["project"] == "A"}
+        if any(u["mod"] in names_a for s in g["scopes"] if s["project"] == "B" for u in s["uses"]):
+            ext_distinct.add(common.digest([g["files_a"], g["files_b"]]))
+        if len(samples) < 4 and not why and g["n_a"] >= 2 and not any(x.get("stream") == "ext" for x in samples):
+            samples.append({"stream": "ext", "files_a": g["files_a"], "files_b": g["files_b"], "order": o["order"],
+                            "tables_of_prog": {KIND_TABLES[k][0]: o["tables"].get("prog", {}).get(k, {}).get("all") for k in range(4)}})
+    hist["ext:pairs"] = len(ext_graphs)
+    n_runs += n_ext_runs
+    n_corr_bad += n_ext_corr
+    n_oracle_fail += n_ext_fail
+    distinct |= ext_distinct
     drv.close()
     rep.coverage.update(
-        evaluations=ev_micro + n_runs + len(graphs),
+        evaluations=ev_micro + n_runs + len(graphs) + len(ext_graphs),
         distinct_nontrivial=len(distinct),
         rule="graph cases: a generated project counts as non-trivial when at least one scope USEs a module of the project; "
              "distinct by digest of (scopes, USE statements, rendered files); clash projects (one name, two entities) are "
              "compared with the model but excluded from the oracle and from this count",
         samples=samples,
-        traces_validated_against_impl=len(graphs) + ev_micro,
+        traces_validated_against_impl=len(graphs) + len(ext_graphs) + ev_micro,
+        external_project_pairs=len(ext_graphs),
+        external_project_pairs_distinct_nontrivial=len(ext_distinct),
         implementation_runs=n_runs,
         correspondence_disagreements=n_corr_bad + bad_micro,
         oracle_failures=n_oracle_fail,
@@ -1673,7 +1723,12 @@ def run(tier: str, seed: int, replay: str | None = None) -> int:
         input_histogram=dict(sorted(hist.items())),
     )
     rep.assumptions += [
-        "submodules, operator/assignment generics in only-lists, modules loaded from an external project (modules.json), block "
+        "stream ext: modules loaded from an external project are modelled (`twoStep`: obj2dict / dict2obj on the export tables, "
+        "loaded modules behind the extra_mods stubs in the binding scan, frozen in the consumer's ranklist loop) and compared for "
+        "ONE project boundary, a local path, module-level scopes; an entity of the external project is identified in the consumer "
+        "by the URL of its page; pairs are legal programs outside the known defect classes; a loaded module is never called like "
+        "an extra_mods stub or like a module of the consumer",
+        "submodules, operator/assignment generics in only-lists, block "
         "data and IMPORT statements are not modelled or generated; the ExternalModule stubs of settings.extra_mods and the "
         "binding step find_used_modules are modelled (`bindName`, `bindG`); contained procedures of modules, programs and "
         "external subroutines and the bodies of unnamed / generic / abstract interface blocks are modelled (`runN`) and compared",
